@@ -41,7 +41,7 @@ impl ErrorType {
                     parser
                         .err(
                             "Callback has been already set",
-                            span.join(name.span()).unwrap(),
+                            span.join(name.span()).unwrap_or(span),
                         )
                         .err("Previous callback set here", previous.span());
                 }
